@@ -10,7 +10,7 @@ extern "C" int LLVMFuzzerTestOneInput(const uint8_t* data, size_t size) {
     std::vector<uint16_t> t((size + 1) / 2);
     if (size) memcpy(t.data(), data, size);  // little-endian host
     std::string msg;
-    int rc = vf::run_case(t.data(), t.size(), &msg, true);
+    int rc = vf::run_case(t.data(), t.size(), &msg, true, (size & 1) != 0);
     if ((vf::stats().cases & 1023) == 0) vf::dump_stats();
     if (rc == 1) {
         fprintf(stderr, "VF-FAIL %s\n", msg.c_str());
